@@ -14,7 +14,8 @@ RULE = ("MQTTGateway / AsyncMQTTGateway (versions 2.0-2.2, with and without pers
         "or 2, equal in/out prefixes}, retain flag, QoS per delivery; workload: node peers publish presentations, values, requests and "
         "stream requests under the in-prefix, the broker injects foreign topics (other prefix, fewer / more levels, the gateway's own "
         "out-prefix traffic, prefix as suffix) and duplicate deliveries, the controller sets values, publish/subscribe callbacks raise "
-        "on drawn calls, optional clean restart with persistence. Oracle: a delivered topic reaches message processing iff it is exactly "
+        "on drawn calls, optional clean restart with persistence (20% with a slow medium: reading the file back takes 0.5-61 s), command "
+        "payloads with '/', leading blanks and tabs. Oracle: a delivered topic reaches message processing iff it is exactly "
         "in_prefix + five levels (model splits levels) and recv() never raises; the subscriptions cover presentation and internal "
         "topics, set/req topics of every presented or restored child and the stream topic of their nodes (wildcard matching); every "
         "publication fed back through a second passive gateway reproduces the published command (QoS>0 <=> ack=1); a raising callback "
